@@ -252,6 +252,8 @@ class HttpPeer:
             self.parser.switch_to_raw()
             self.inner = HttpPeer(self.world, pipe, self.cfg, name, spec,
                                   proxy=False, via=("connect", name))
+            pipe.neg_written = len(pipe.written) - len(leftover)
+            pipe.neg_sent = len(pipe.sent)
             if leftover:
                 self.inner.on_data(leftover)
         elif pp.get("close", True):
@@ -398,6 +400,8 @@ class SocksPeer:
                     del b[:]
                     self.inner = HttpPeer(self.world, pipe, self.cfg, name, spec, proxy=False, via=("socks", name))
                     self.state = "spliced"
+                    pipe.neg_written = len(pipe.written) - len(leftover)
+                    pipe.neg_sent = len(pipe.sent)
                     pipe.noseg_until = len(pipe.sent)
                     if leftover:
                         self.inner.on_data(leftover)
